@@ -38,7 +38,7 @@ def cast_bits(f):
     return 8
 
 
-def emit_format(f):
+def emit_format(f, gen):
     L = []
     name = lname(f["file"])
     t = f["tables"][0] if f["tables"] else {"name": "", "size": 0, "rows": []}
@@ -111,6 +111,15 @@ def emit_format(f):
     L.append("  opaqueFns := [" + ", ".join(ops) + "]")
     L.append("  statics := [" + ", ".join("(%s, %s, %s)" % (lstr(s["name"]), lstr(s["type"]), lbool(s["const"]))
                                          for s in f["statics"]) + "]")
+    hdr = f.get("header") or ""
+    L.append("  header := %s" % lstr(hdr))
+    facts = []
+    for k, v in sorted((gen["probe_per_header"].get(hdr) or {}).items()):
+        if k.startswith("enum:") and not (k.startswith("enum:AVTP_ACF_TYPE") or k.startswith("enum:AVTP_SUBTYPE")
+                                          or k.startswith("enum:AVTP_CVF_FORMAT")):
+            continue
+        facts.append("(%s, %s)" % (lstr(k), lint(v)))
+    L.append("  facts := [" + ", ".join(facts) + "]")
     return name, "\n".join(L)
 
 
@@ -121,23 +130,11 @@ def emit_lean(gen, outdir):
         "import O1722.Model.Format", "", "namespace O1722.Gen", "open O1722", ""]
     names = []
     for f in gen["files"]:
-        n, txt = emit_format(f)
+        n, txt = emit_format(f, gen)
         names.append(n)
         out.append(txt)
         out.append("")
     out.append("def formats : List GenFormat := [" + ", ".join(names) + "]")
-    out.append("")
-    # compiler-evaluated constants (sizeof / offsetof / macros / enum signedness)
-    facts = []
-    for k, v in sorted(gen["probe"].items()):
-        if k.startswith("conflict:"):
-            continue
-        if k.startswith("enum:") and not (k.startswith("enum:AVTP_ACF_TYPE") or k.startswith("enum:AVTP_SUBTYPE")
-                                          or k.startswith("enum:AVTP_CVF_FORMAT")):
-            continue
-        facts.append("(%s, %s)" % (lstr(k), lint(v)))
-    out.append("/-- constants evaluated by the C compiler against the repository's headers -/")
-    out.append("def probe : List (String × Int) := [\n  " + ",\n  ".join(facts) + "]")
     out.append("")
     out.append("def byFile (file : String) : Option GenFormat := formats.find? (fun g => g.file == file)")
     out.append("")
